@@ -455,6 +455,152 @@ def h_blocks(ky, kx, extra, dtype):
         prove("fill_zero", fv == 0)
 
 
+def h_blocks_roi(form):
+    """the other ways of asking for a window: no roi, __getitem__, N-d roi with an integer on the
+    extra axis (squeezed), leading-axes-only roi, negative/open slice bounds, integer in Y, too many
+    indices; and planes_yx"""
+    import numpy as real_np
+
+    import odc.geo._blocks as blk
+
+    from ..npmodel import FakeBlock, RecArray
+
+    chy = (Int("cy0", 1),)
+    chx = (Int("cx0", 1), Int("cx1", 1))
+    NY, NX = chy[0], chx[0] + chx[1]
+    assume(And(NY <= 2**31 - 1, NX <= 2**31 - 1))
+    T = 3
+    blocks = {}
+    for ix in range(2):
+        shape = (T, chy[0], chx[ix])
+        blocks[(0, ix)] = real_np.full(shape, ix + 1, dtype="uint8") if symx.concrete_mode() else FakeBlock((0, ix), shape, "uint8")
+    ba = blk.BlockAssembler(blocks, (chy, chx), axis=1)
+    offx = [0, chx[0], NX]
+    y0, y1, x0, x1 = Int("y0"), Int("y1"), Int("x0"), Int("x1")
+    assume(And(0 <= y0, y0 < y1, y1 <= NY, 0 <= x0, x0 < x1, x1 <= NX))
+    want_t = (0, T)
+    squeezed = ()
+    if form == "none":
+        out = ba.extract()
+        y0, y1, x0, x1 = 0, NY, 0, NX
+    elif form == "getitem":
+        out = ba[y0:y1, x0:x1]
+    elif form == "lead_int":
+        t = Int("t")
+        assume(And(-T <= t, t < T))
+        out = ba[t, y0:y1, x0:x1]
+        tt = ite(t < 0, t + T, t)
+        want_t = (tt, tt + 1)
+        squeezed = (0,)
+    elif form == "lead_only":
+        t0, t1 = Int("t0"), Int("t1")
+        assume(And(0 <= t0, t0 < t1, t1 <= T))
+        out = ba[t0:t1]
+        want_t = (t0, t1)
+        y0, y1, x0, x1 = 0, NY, 0, NX
+    elif form == "neg":
+        k, m = Int("k"), Int("m")
+        assume(And(1 <= k, k <= NY, 1 <= m, m < NX))
+        out = ba[-k:, :-m]
+        y0, y1, x0, x1 = NY - k, NY, 0, NX - m
+    elif form == "y_int":
+        yi = Int("yi")
+        assume(And(-NY <= yi, yi < NY))
+        out = ba[yi, x0:x1]
+        y0 = ite(yi < 0, yi + NY, yi)
+        y1 = y0 + 1
+    elif form == "too_many":
+        try:
+            ba[0:1, 0:1, 0:1, 0:1]
+        except IndexError:
+            return
+        prove("too_many_indices_refused", False)
+        return
+    elif form == "planes_trail":
+        blocks = {}
+        for ix in range(2):
+            shape = (chy[0], chx[ix], T)
+            blocks[(0, ix)] = real_np.full(shape, ix + 1, dtype="uint8") if symx.concrete_mode() else FakeBlock((0, ix), shape, "uint8")
+        ba = blk.BlockAssembler(blocks, (chy, chx), axis=0)
+        pl = list(ba.planes_yx((slice(y0, y1), slice(x0, x1))))
+        prove("planes_count", len(pl) == T)
+        for k_, p_ in enumerate(pl):
+            prove(f"plane_roi{k_}", And(len(p_) == 3, p_[-1] == k_, p_[0].start == y0, p_[0].stop == y1, p_[1].start == x0, p_[1].stop == x1))
+        return
+    elif form == "planes":
+        pl = list(ba.planes_yx())
+        prove("planes_count", len(pl) == T)
+        for k_, p_ in enumerate(pl):
+            prove(f"plane{k_}", And(p_[0] == k_, p_[1] == slice(None), p_[2] == slice(None), len(p_) == 3))
+        pl = list(ba.planes_yx((slice(y0, y1), slice(x0, x1))))
+        for k_, p_ in enumerate(pl):
+            prove(f"plane_roi{k_}", And(p_[0] == k_, p_[1].start == y0, p_[1].stop == y1, p_[2].start == x0, p_[2].stop == x1))
+        return
+    py, px = Int("py"), Int("px")
+    assume(And(y0 <= py, py < y1, x0 <= px, px < x1))
+    full_shape = (want_t[1] - want_t[0], y1 - y0, x1 - x0)
+    if symx.concrete_mode():
+        want_shape = tuple(int(v) for i_, v in enumerate(full_shape) if i_ not in squeezed)
+        prove("out_shape", tuple(out.shape) == want_shape)
+        idx = (py - y0, px - x0) if squeezed else (0, py - y0, px - x0)
+        prove("pixel", out[idx] == (1 if px < offx[1] else 2))
+        return
+    prove("recorded", isinstance(out, RecArray))
+    prove("out_shape", And(len(out.shape) == 3, *[a == b for a, b in zip(out.shape, full_shape)]))
+    prove("squeezed_axes", tuple(out.squeezed or ()) == squeezed)
+    wy, wx = py - y0, px - x0
+    for d_roi, b, s_roi in out.writes:
+        dy, dx = d_roi[1], d_roi[2]
+        sy, sx = s_roi[1], s_roi[2]
+        ix = b.name[1]
+        L = f"w{ix}"
+        prove(L + ":same_extent", And(dy.stop - dy.start == sy.stop - sy.start, dx.stop - dx.start == sx.stop - sx.start))
+        prove(L + ":dst_in_window", And(0 <= dy.start, dy.stop <= y1 - y0, 0 <= dx.start, dx.stop <= x1 - x0))
+        prove(L + ":src_in_block", And(0 <= sy.start, sy.stop <= chy[0], 0 <= sx.start, sx.stop <= chx[ix]))
+        cov = And(dy.start <= wy, wy < dy.stop, dx.start <= wx, wx < dx.stop)
+        inblock = And(offx[ix] <= px, px < offx[ix + 1])
+        prove(L + ":written_iff_in_block", cov == inblock)
+        prove(L + ":source_offset", And(sy.start + (wy - dy.start) == py, sx.start + (wx - dx.start) == px - offx[ix]), when=cov)
+        prove(L + ":lead_src", And(s_roi[0].start == want_t[0], s_roi[0].stop == want_t[1]))
+        prove(L + ":lead_dst_whole", d_roi[0] == slice(None))
+    prove("one_write_per_block", len(out.writes) == 2)
+
+
+def h_blocks_errors():
+    """construction refuses blocks whose Y/X shape differs from the chunk table, blocks with
+    differing extra dimensions, and blocks with too few dimensions"""
+    import odc.geo._blocks as blk
+
+    from ..npmodel import FakeBlock
+
+    cy, cx0, cx1 = Int("cy0", 1), Int("cx0", 1), Int("cx1", 1)
+    by, bx = Int("by", 1), Int("bx", 1)
+    assume(And(cy <= 2**31 - 1, cx0 + cx1 <= 2**31 - 1, by <= 2**31 - 1, bx <= 2**31 - 1))  # numpy index width
+    mk_b = (lambda nm, sh: __import__("numpy").zeros(sh, dtype="uint8")) if symx.concrete_mode() else (lambda nm, sh: FakeBlock(nm, sh, "uint8"))
+    blocks = {(0, 0): mk_b((0, 0), (cy, cx0)), (0, 1): mk_b((0, 1), (by, bx))}
+    matches = And(by == cy, bx == cx1)
+    try:
+        ba = blk.BlockAssembler(blocks, ((cy,), (cx0, cx1)))
+    except ValueError:
+        prove("refused_only_on_mismatch", Not(matches))
+    else:
+        prove("accepted_only_on_match", matches)
+        prove("shape", And(ba.shape[0] == cy, ba.shape[1] == cx0 + cx1))
+    # extra dims differ
+    blocks = {(0, 0): mk_b((0, 0), (2, cy, cx0)), (0, 1): mk_b((0, 1), (3, cy, cx1))}
+    try:
+        blk.BlockAssembler(blocks, ((cy,), (cx0, cx1)), axis=1)
+    except ValueError:
+        pass
+    else:
+        prove("differing_extra_dims_refused", False)
+    try:
+        blk.BlockAssembler({(0, 0): mk_b((0, 0), (cy, cx0))}, ((cy,), (cx0,)), axis=1)
+    except ValueError:
+        return
+    prove("too_few_dims_refused", False)
+
+
 def h_blocks_fill(dtype, fill):
     """dtype/fill resolution on real numpy dtypes (concrete grid; no symbolic inputs needed)"""
     import numpy as real_np
@@ -521,6 +667,12 @@ OBLIGATIONS = [
        descr="BlockAssembler.extract: every window pixel is written exactly once from the block covering it at offset (pixel - block origin), or keeps the fill value",
        functions=("odc.geo._blocks.BlockAssembler", "odc.geo.roi.roi_intersect3", "odc.geo.roi.VariableSizedTiles"),
        bounds="chunk sizes symbolic, presence flags symbolic, window and probe pixel symbolic", stubs=("NumpyModel recording full/copyto",), setup=setup, timeout_ms=20000),
+    Ob("T5_roi_forms", h_blocks_roi, fixed(*[dict(form=f) for f in ("none", "getitem", "lead_int", "lead_only", "neg", "y_int", "too_many", "planes", "planes_trail")]),
+       descr="window given as None / __getitem__ / N-d roi with an integer on the extra axis (squeezed) / leading-axes-only / negative and open bounds / integer row; too many indices refused; planes_yx",
+       functions=("odc.geo._blocks.BlockAssembler._norm_roi", "odc.geo._blocks.BlockAssembler.__getitem__", "odc.geo._blocks.BlockAssembler.planes_yx", "odc.geo.roi.roi_normalise"),
+       bounds="1x2 blocks with a leading axis of 3; chunk sizes, window, indices and probe pixel symbolic", stubs=("NumpyModel recording full/copyto/squeeze",), setup=setup, timeout_ms=20000),
+    Ob("T5_errors", h_blocks_errors, fixed(), descr="BlockAssembler refuses blocks not matching the chunk table (iff), differing extra dims, too few dims",
+       functions=("odc.geo._blocks.BlockAssembler._verify_shape",), bounds="chunk sizes and the second block's shape symbolic", setup=setup),
     Ob("T5_fill", h_blocks_fill, fixed(*[dict(dtype=d, fill=f) for d in ("uint8", "int16", "float32", "bool") for f in ("none", "nan", "255", "-1") if not (d == "bool" and f in ("255", "-1", "nan"))]),
        descr="dtype/fill resolution on real numpy (grid; concrete)", functions=("odc.geo._blocks.BlockAssembler.extract", "odc.geo._blocks._find_common_type"), bounds="dtype x fill grid", setup=setup),
 ]
